@@ -132,6 +132,9 @@ def classify(r):
     # errors of natives whose message text is outside the model: any error matches
     if isinstance(b[2], list) and b[2][0] == "errc" and b[2][1].startswith("other") and isinstance(a[2], list) and a[2][0] in ("err", "errc"):
         a = [a[0], a[1], b[2]]
+    # a built-in error whose message the implementation words differently is still that error: the properties fix no message text
+    if isinstance(b[2], list) and b[2][0] == "errc" and isinstance(a[2], list) and a[2][0] == "err":
+        a = [a[0], a[1], b[2]]
     if mterm == "bot":
         # the model ran out of fuel: its items must be a prefix of the implementation's
         n = len(b[1])
